@@ -291,7 +291,93 @@ func targets() []*target {
 			},
 			params: []string{"(g_hex : bytes)", "(m_safeSet : list (Z * bool))", "(s_jsonMode : bool)", "(s_buf : bytes)", "(str : bytes)"},
 			result: "option bytes", final: "Some (s_buf)"},
+
+		// ---- RegisterLevel (C17): the options arrive resolved (the regPack fields after every opt ran: o_*);
+		// the seven tables are the state the function hands back; a map write overwrites (mapZ_set / mapB_set) ----
+		{pkg: slogPkg, recv: "", fn: "RegisterLevel", coq: "register", file: "Registry", strict: true, fallback: "RegRef.register_ref",
+			comment: "(returns (error, tables); None = panic / out of fuel)", panicT: "None", retfmt: "Some (%s)", retTy: "option bytes",
+			tymap:   map[string]string{"error": "option bytes"},
+			effects: []string{"g_allLevels", "m_levelToString", "m_stringToLevel", "m_shortTagMap", "m_mLevelColors", "m_mLevelIsEnabledAs", "m_mLevelUseErrorDevice"},
+			opaque: map[string]string{"pack.clr": "o_clr", "pack.bg": "o_bg", "pack.treatAs": "o_treat", "pack.printOutToErrorDevice": "o_err",
+				"pack.shortTags[i]": "(tag_at o_tags i)"},
+			calls: map[string]callSpec{"fmt.Errorf": {pure: "Some %0", lazy: true}},
+			from: func(stmts []ast.Stmt) []ast.Stmt {
+				// leave out `var pack = regPack{..}` and `for _, opt := range opts { opt(&pack) }`
+				var out []ast.Stmt
+				skipped := 0
+				for _, st := range stmts {
+					if ds, ok := st.(*ast.DeclStmt); ok && containsText(ds, "regPack{") {
+						skipped++
+						continue
+					}
+					if rs, ok := st.(*ast.RangeStmt); ok && src(rs.X) == "opts" && strings.Join(strings.Fields(src(rs.Body)), " ") == "{ opt(&pack) }" {
+						skipped++
+						continue
+					}
+					out = append(out, st)
+				}
+				if skipped != 2 {
+					return nil
+				}
+				return out
+			},
+			params: []string{"(g_allLevels : list Z)", "(m_levelToString : list (Z * bytes))", "(m_stringToLevel : list (bytes * Z))",
+				"(m_shortTagMap : list (Z * list (Z * bytes)))", "(m_mLevelColors : list (Z * list Z))", "(m_mLevelIsEnabledAs : list (Z * Z))",
+				"(m_mLevelUseErrorDevice : list (Z * bool))", "(levelValue : Z)", "(title : bytes)", "(o_tags : list bytes)", "(o_clr o_bg o_treat : Z)", "(o_err : bool)"},
+			result: "option (option bytes * list Z * list (Z * bytes) * list (bytes * Z) * list (Z * list (Z * bytes)) * list (Z * list Z) * list (Z * Z) * list (Z * bool))",
+			final:  "None"},
+
+		// ---- the buffer methods of PrintCtx (C19) ----
+		bufT("empty", "buf_empty", nil, "bool", "false", false),
+		bufT("Len", "buf_len", nil, "Z", "0", false),
+		bufT("Reset", "buf_reset", nil, "bres unit bstate", "", true),
+		bufT("Truncate", "buf_truncate", []string{"(n : Z)"}, "bres unit bstate", "", true),
+		bufT("Read", "buf_read", []string{"(p : gslice)"}, "bres (Z * err) (bstate * gslice)", "", true),
+		bufT("Next", "buf_next", []string{"(n : Z)"}, "bres gslice bstate", "", true),
+		bufT("ReadByte", "buf_read_byte", nil, "bres (Z * err) bstate", "", true),
+		bufT("ReadRune", "buf_read_rune", nil, "bres (Z * Z * err) bstate", "", true),
+		bufT("UnreadRune", "buf_unread_rune", nil, "bres err bstate", "", true),
+		bufT("UnreadByte", "buf_unread_byte", nil, "bres err bstate", "", true),
+		// the io.Writer is an oracle: it answers (w_m, w_e); what it was handed is the trace tr_
+		bufT("WriteTo", "buf_write_to", []string{"(w : unit)", "(w_m : Z)", "(w_e : err)", "(tr_ : list bytes)"}, "bres (Z * err) (bstate * list bytes)", "", true),
 	}
+}
+
+// bufT: a method of PrintCtx on the state (s.buf, s.off, s.lastRead).  A []byte is a gslice (visible part,
+// spare capacity); the function ends in BOk results state / BRange state (an index or slice expression out
+// of range) / BPanic v state (panic(v)); errors are the constants of Model/Buffer.v.
+func bufT(fn, coq string, params []string, result, final string, eff bool) *target {
+	t := &target{pkg: slogPkg, recv: "PrintCtx", fn: fn, coq: coq, file: "Buffers", strict: true, fallback: "BufRef." + coq + "_ref",
+		tymap:  map[string]string{"[]byte": "gslice", "error": "err"},
+		nils:   map[string]string{"err": "ENil"},
+		opaque: map[string]string{"io.EOF": "EEOF", "errUnreadByte": "EUnreadByte", "io.ErrShortWrite": "EShortWrite", "ErrTooLarge": "p_toolarge", "errNegativeRead": "p_negread"},
+		params: append([]string{"(s_buf : gslice)", "(s_off s_lastRead : Z)"}, params...), result: result, final: final,
+		calls: map[string]callSpec{
+			"*PrintCtx.empty":         {pure: "buf_empty s_buf s_off s_lastRead"},
+			"*PrintCtx.Len":           {pure: "buf_len s_buf s_off s_lastRead"},
+			"*PrintCtx.Reset":         {state: "buf_reset s_buf s_off s_lastRead", bres: true, sub: []string{"s_buf", "s_off", "s_lastRead"}},
+			"errors.New":              {pure: "EUnreadRune"},
+			"utf8.DecodeRune":         {res: "decode_rune_z (sl_bytes %0)"},
+			"utf8.DecodeRuneInString": {res: "decode_rune_z %0"},
+		}}
+	if eff {
+		t.effects = []string{"s_buf", "s_off", "s_lastRead"}
+		st := "(s_buf, s_off, s_lastRead)"
+		if fn == "Read" {
+			t.effects = append(t.effects, "p")
+			st = "(s_buf, s_off, s_lastRead, p)"
+		}
+		if fn == "WriteTo" {
+			t.effects = append(t.effects, "tr_")
+			st = "(s_buf, s_off, s_lastRead, tr_)"
+			t.calls["io.Writer.Write"] = callSpec{res: "(w_m, w_e)", ev: "sl_bytes %0"}
+			t.nilTest = map[string]string{"err": "err_is_enil"}
+		}
+		t.panicT, t.panicFmt, t.okfmt = "BRange "+st, "BPanic %s "+st, "BOk (%s) %s"
+		t.final = "BOk tt " + st
+		t.comment = "(BOk results state | BRange state | BPanic v state)"
+	}
+	return t
 }
 
 // asciiRuneArg: strings.IndexRune(s, r) is the index of the BYTE r only for a constant r < utf8.RuneSelf
@@ -321,6 +407,8 @@ var genFiles = [][2]string{
 	{"Assembly", "Require Import Verif.Model.Base Verif.Model.Decision Verif.Model.GoSem Verif.Model.Attrs Verif.Model.Collect Verif.Model.CollectRef."},
 	{"Paths", "Require Import Verif.Model.Base Verif.Model.Decision Verif.Model.GoSem Verif.Model.Path Verif.Model.PathRef."},
 	{"Escapes", "Require Import Verif.Model.Base Verif.Model.Decision Verif.Model.GoSem Verif.Model.Utf8 Verif.Model.EscRef."},
+	{"Buffers", "Require Import Verif.Model.Base Verif.Model.Decision Verif.Model.GoSem Verif.Model.Utf8 Verif.Model.Buffer Verif.Model.BufRef."},
+	{"Registry", "Require Import Verif.Model.Base Verif.Model.Decision Verif.Model.Dec Verif.Model.GoSem Verif.Model.Level Verif.Model.RegRef."},
 	{"LevelNames", "Require Import Verif.Model.Base Verif.Model.Decision Verif.Model.Dec Verif.Model.GoSem Verif.Model.LevelRef."},
 }
 
